@@ -16,6 +16,10 @@ def main():
     add_repo_paths()
     from .checks import REGISTRY
 
+    if a.tier == "thorough" or os.environ.get("VERIF_CROSS"):
+        from .pysym import CrossCheck
+        from .common import seed
+        CrossCheck.enable(seed(), float(os.environ.get("VERIF_CROSS_RATE", "0.02")))
     if a.prop not in REGISTRY:
         print(f"unknown property {a.prop}; have {sorted(REGISTRY)}")
         sys.exit(EXIT_INCONCLUSIVE)
